@@ -6,6 +6,7 @@ import CmModel.Color
 import CmModel.Cert
 import CmModel.CliRun
 import CmModel.Html
+import CmModel.Effects
 import CmGen.NamedColors
 /-! Line-protocol driver: one operation per input line, one result line per operation. -/
 open Cm Cm.Proto
@@ -329,6 +330,14 @@ def handle (toks : List String) : Option String :=
       -- certified (proved sound over ℝ) verdict `ratio ≥ num/den`
       let c ← rgbOf r g b; let d ← rgbOf r2 g2 b2; let n ← parseInt num; let m ← den.toNat?
       pure (match certVerdict c d (mkRat n m) with | some true => "true" | some false => "false" | none => "none")
+  | ["effects", valid, sh, sv] =>
+      -- predicted side effects of make_readable(show, save_report) (C17)
+      pure (" ".intercalate ((mrEffects (valid == "1") (sh == "1") (sv == "1")).map fun e =>
+        match e with | .stdout => "stdout" | .write f => "write:" ++ f))
+  | ["bulkeffects", sv, n] => do
+      let n ← n.toNat?
+      pure (" ".intercalate ((bulkEffects (sv == "1") n).map fun e =>
+        match e with | .stdout => "stdout" | .write f => "write:" ++ f))
   | ["skel", h] => do
       -- markup skeleton of an HTML document under the coarse tokenizer model (C19)
       let s ← if h == "-" then some "" else strOfHex h
